@@ -1540,13 +1540,15 @@ func (l *lexer) scanCmdSubst(r rune) bool {
 		if ll.err != nil {
 			vpoint(l, vCopyErr)
 			l.mu.Lock()
-			l.err = ll.err
-			if len(ll.stack) == 0 && r == '`' {
-				err := l.err.(Error)
-				l.err = Error{
-					Name: err.Name,
-					Pos:  err.Pos,
-					Msg:  "syntax error: unexpected '`'",
+			if l.err == nil {
+				l.err = ll.err
+				if len(ll.stack) == 0 && r == '`' {
+					err := l.err.(Error)
+					l.err = Error{
+						Name: err.Name,
+						Pos:  err.Pos,
+						Msg:  "syntax error: unexpected '`'",
+					}
 				}
 			}
 			l.mu.Unlock()
@@ -1769,10 +1771,16 @@ func (l *lexer) unread() {
 }
 
 func (l *lexer) Error(e string) {
-	l.error(l.last.Load().(ast.Pos), e)
+	l.report(l.last.Load().(ast.Pos), e, true)
 }
 
 func (l *lexer) error(pos ast.Pos, msg string) {
+	l.report(pos, msg, false)
+}
+
+// report records an error. The lexer runs ahead of the parser, so an
+// error of the parser replaces one of the lexer, but not vice versa.
+func (l *lexer) report(pos ast.Pos, msg string, parser bool) {
 	vpoint(l, vErr)
 	l.mu.Lock()
 	defer l.mu.Unlock()
@@ -1780,7 +1788,7 @@ func (l *lexer) error(pos ast.Pos, msg string) {
 	if l.err != nil && strings.Contains(msg, ": unexpected EOF") {
 		return // lexing was interrupted
 	}
-	if _, ok := l.err.(Error); ok || l.err == nil {
+	if _, ok := l.err.(Error); ok && parser || l.err == nil {
 		// a read error is never replaced
 		l.err = Error{
 			Name: l.name,
